@@ -334,7 +334,7 @@ def apply_inline(text, name, info):
             recv = ''.join(m.group(1).split())
             body = re.sub(r'\bself\b', recv, body)
         binds = ''.join('let %s = %s; ' % (pn, a) for pn, a in zip(info['params'], args))
-        repl = '{ ' + binds + body + ' }'
+        repl = '({ ' + binds + body + ' })'
         orig = text[m.start():k]
         repl += '\n' * orig.count('\n')
         out += text[pos:m.start()] + repl
